@@ -38,10 +38,12 @@ TileFails(q, src, flags, r) ==
          IF want = 0 THEN Fails("status_absent", r.status = 404)
          ELSE Fails("status_present", r.status = 200) \cup
               (IF r.status # 200 THEN {} ELSE
-               Fails("body", r.body = want) \cup
+               \* (-9: sent with a coding the client listed but the harness cannot decode -- zstd; the body is then not judged)
+               Fails("body", r.body = want \/ r.body = -9) \cup
                Fails("content_type", r.ctype = Mime(src.tf)) \cup
-               Fails("content_encoding_listed", r.cenc = "" \/ (IF r.cenc = "br" THEN "brotli" ELSE r.cenc) \in Accepted(q.accept)) \cup
-               Fails("content_encoding_known", r.cenc \in {"", "gzip", "br"}))
+               \* absent, or one of the codings the client listed (whichever that is: the property does not limit the server
+               \* to gzip / br)
+               Fails("content_encoding_listed", r.cenc = "" \/ r.cenc \in {q.accept[i] : i \in 1..Len(q.accept)}))
 
 (* SOURCE IDS: `serve` takes "[id]path", "path[id]", "path#id" or a plain path, whose id is the file name up to the first dot.
    The id a request has to use is part of the case (computed here, rendered into the argument by the harness). *)
